@@ -1,6 +1,6 @@
 (* C02 - cursors enumerate records in key order.  Statements only. *)
 Require Import List ZArith Lia. Import ListNotations.
-Require Import IW.KV.Node IW.KV.Spec IW.KV.Cursor IW.KV.Cursor_proofs IW.KV.Node_proofs IW.KV.CursorGe_proofs IW.KV.Keys IW.KV.Inst IW.KV.Keys_proofs IW.KV.Match_proofs IW.Gen.Facts.
+Require Import IW.KV.Node IW.KV.Spec IW.KV.Cursor IW.KV.Cursor_proofs IW.KV.Node_proofs IW.KV.CursorGe_proofs IW.KV.Keys IW.KV.Inst IW.KV.Keys_proofs IW.KV.Match_proofs IW.KV.CopyReads IW.KV.CopyReads_proofs IW.Gen.Facts.
 
 (* For EVERY chain of non-empty nodes with distinct identities (any number of nodes, any node sizes) and whatever
    state the cursor was in before: BEFORE_FIRST followed by repeated NEXT (reading the record after each successful
@@ -126,3 +126,26 @@ Theorem C02_match_old_refuted :
     db_cmatch_old d 0%nat k = Some false /\ db_cmatch d 0%nat k = Some true.
 Proof. exact cmatch_old_refuted. Qed.
 Print Assumptions C02_match_old_refuted.
+
+(* Copy reads (iwkv_cursor_copy_val / iwkv_cursor_copy_key) act on exactly the record a read through the cursor returns: the
+   full size is reported whatever the buffer, at most n bytes are written, they are the first n bytes, and a buffer that is
+   large enough receives everything. *)
+Theorem C02_copy_val_spec : forall (d : db) (slot n : nat) (k : key) (v : value),
+  db_cread d slot = Some (k, v) ->
+  exists out, db_ccopyval d slot n = Some (length v, out) /\ out = firstn n v /\ (length out <= n)%nat /\
+              (length v <= n -> out = v)%nat.
+Proof. exact ccopyval_spec. Qed.
+Print Assumptions C02_copy_val_spec.
+
+Theorem C02_copy_key_spec : forall (d : db) (slot n : nat) (k : key) (v : value),
+  db_cread d slot = Some (k, v) ->
+  exists out, db_ccopykey d slot n = Some (length (fst (api_key (d_mode d) k)), snd (api_key (d_mode d) k), out) /\
+              out = firstn n (fst (api_key (d_mode d) k)) /\ (length out <= n)%nat /\
+              (length (fst (api_key (d_mode d) k)) <= n -> out = fst (api_key (d_mode d) k))%nat.
+Proof. exact ccopykey_spec. Qed.
+Print Assumptions C02_copy_key_spec.
+
+Theorem C02_copy_no_record : forall (d : db) (slot n : nat),
+  db_cread d slot = None -> db_ccopyval d slot n = None /\ db_ccopykey d slot n = None.
+Proof. exact ccopy_no_record. Qed.
+Print Assumptions C02_copy_no_record.
